@@ -5096,7 +5096,9 @@ func reduceBinaryExprDurationLHS(op Token, lhs *DurationLiteral, rhs Expr, loc *
 		case MUL:
 			return &DurationLiteral{Val: lhs.Val * time.Duration(rhs.Val)}
 		case DIV:
-			if rhs.Val == 0 {
+			// The divisor is truncated to an integral number of
+			// nanoseconds, so a fraction below one is zero as well.
+			if time.Duration(rhs.Val) == 0 {
 				return &DurationLiteral{Val: 0}
 			}
 			return &DurationLiteral{Val: lhs.Val / time.Duration(rhs.Val)}
